@@ -48,19 +48,20 @@ ASSUMPTIONS = [
     'dataSort: a sorts entry is an array whose first element is a string (field) optionally followed by the descending flag (Python truthiness); '
     'other shapes are outside the model',
     'dataTop: categoryFields are strings',
-    'dataParseCSV: csv.DictReader record splitting/quoting (skipinitialspace) and str.splitlines are trusted base: the model starts from the split '
-    'cells; records are rectangular or short (no surplus cells: they would create a None key); header names are pairwise different; the harness '
-    'writer (minimal RFC 4180 quoting or every cell quoted; LF, CRLF, CR or mixed record ends) quotes cells containing , " CR LF or a leading '
-    'space AND cells containing one of the other str.splitlines separators \\x0b \\x0c \\x1c \\x1d \\x1e \\x85 \\u2028 \\u2029 (left unquoted, as a plain '
-    'RFC 4180 writer would, such a cell is cut into two records by the splitlines call of dataParseCSV: observation, reported); string cells are '
-    'drawn from every ASCII punctuation character incl. backslash and apostrophe, tabs, control characters, Latin-1/BMP/astral text (NFC and NFD, '
-    'BOM, NBSP, zero-width); malformed hand-written cells (stray quotes, text after a closing quote, unterminated quote) are typed as csv.reader '
-    'splits them',
+    'dataParseCSV: physical lines end at LF, CRLF or a lone CR and nowhere else (harness ref_split_lines, written from RFC 4180); csv.reader cell '
+    'splitting/quoting (skipinitialspace) is trusted base: the model starts from the split cells; records are rectangular or short (no surplus '
+    'cells: they would create a None key); header names are pairwise different and the first chunk is not empty / the text does not start with a '
+    'blank line (csv.DictReader would take the empty row as the header); the harness writer is a plain RFC 4180 writer (minimal quoting: cells '
+    'containing , " CR or LF - or every cell quoted; LF, CRLF, CR or mixed record ends) that also quotes a cell starting with a blank (skipped '
+    'after a delimiter by design: skipinitialspace, pinned by the suite); cells containing VT, FF, FS, GS, RS, NEL, U+2028, U+2029 are written '
+    'UNQUOTED and must round-trip (F32); string cells are drawn from every ASCII punctuation character incl. backslash and apostrophe, tabs, '
+    'control characters, Latin-1/BMP/astral text (NFC and NFD, BOM, NBSP, zero-width); malformed hand-written cells (stray quotes, text after a '
+    'closing quote, unterminated quote) are typed as csv.reader splits them',
     'value_parse_number = C13 model NumText.numberParseFloat (exact rational, the double is its correct rounding: the harness rounds); '
     'value_parse_datetime = C16 model Datetime.isoParse over a fixed-offset zone (the csv stream runs under TZ=UTC, thorough also Etc/GMT+5, Etc/GMT-3)',
 ]
 TRUSTED = ['reference relational implementations (filter/sort/group/aggregate/join/CSV typing) and generators in harness/props/C19.py (the property oracles)',
-           'CPython: dict insertion order, list.sort stability, tuple ==/hash, min/max/sum, statistics.mean/pstdev, csv.DictReader, str.splitlines']
+           'CPython: dict insertion order, list.sort stability, tuple ==/hash, min/max/sum, statistics.mean/pstdev, csv.reader / csv.DictReader']
 
 LEVEL_TEXT = ('Theorems, for tables of any size: dataFilter = List.filter by truthiness of the expression value (raises iff an evaluation raises); '
               'dataCalculatedField sets the field on every row keeping all other fields; dataSort is the unique sorted stable permutation w.r.t. the '
@@ -1287,6 +1288,9 @@ def gen_csv_case(rng, off):
         chunks = [eol.join(lines[a:b]) for a, b in zip([0] + cut, cut + [len(lines)])]
         if rng.random() < 0.3:
             chunks.insert(rng.randint(0, len(chunks)), None)
+        if rng.random() < 0.1:
+            # an empty text adds nothing, wherever it stands (before the header chunk too: regression of the first F32 patch, fixed)
+            chunks.insert(rng.randint(0, len(chunks)), '')
     return {'header': header, 'records': records, 'typed': typed, 'chunks': chunks, 'off': off, 'short': short, 'malformed': bool(verbatim),
             'via': 'script' if rng.random() < 0.1 else 'direct'}
 
@@ -1421,7 +1425,7 @@ def csv_fixed_cases(off):
 def stream_csv(ctx):
     st = ctx.stream('csv', 'typed tables (<= 12 rows x 5 columns of numbers incl. exponent forms / booleans / datetimes and dates / strings with quoted commas, '
                            'quotes, newlines, leading spaces and date-like invalid text, strings generated from all ASCII punctuation (backslash, apostrophe, '
-                           'semicolon, tab, ...), lone CR / CRLF / LF and the other splitlines separators, control characters, composed and decomposed '
+                           'semicolon, tab, ...), lone CR / CRLF / LF, the Unicode line separators VT FF FS GS RS NEL LS PS (unquoted: not record ends), control characters, composed and decomposed '
                            'Latin-1/BMP/astral text, BOM/NBSP, other-dialect quoting and escaping look-alikes, the empty string / nulls as "" or "null"; '
                            'generated column names too) written as CSV by the harness writer (minimal or all-cells quoting; LF, CRLF, CR or mixed record '
                            'ends), 10% also called from a script; malformed hand-written cells (stray / unbalanced quotes) written verbatim; also '
